@@ -10,13 +10,16 @@
 //   events   i<blk>  import: BlockState.AddBlock, HandleGRANDPADigest, ApplyForcedChanges
 //            f<blk>  finalise: BlockState.SetFinalisedHash, ApplyScheduledChanges
 //   The case stops after the first event that returns an error.
-// observed: per executed event five tokens
+// observed: per executed event seven tokens
 //   <ok|err:digest|err:forced|err:sched>
 //   s=<current set id>
 //   a=<auth id of set 0>.<set 1>...<set current+1>      ("-" not found, "?" other error)
 //   n=<GetSetIDByBlockNumber(0)>.<(1)>...<(max number+2)>   ("?" error)
 //   x=<blk>:<NextGrandpaAuthorityChange(blk as best)|-|!>,...   for every imported block that
 //      descends from (or is) the last finalised block; "-" = ErrNoNextAuthorityChange, "!" = other error
+//   F=<blk>.<blk>...            announcing blocks of forcedChanges in slice order ("-" empty)
+//   R=<blk>(<children>)...      scheduledChangeRoots as nested lists in slice order ("-" empty)
+// (so seven tokens per event)
 package state
 
 import (
@@ -82,32 +85,25 @@ func c23Gen(r *vu.RNG, n int, emit func(string)) {
 		nb := 2 + r.Intn(7)
 		parent := make([]int, nb+1)
 		num := make([]int, nb+1)
+		nkids := make([]int, nb+1)
 		chainy := r.Chance(2, 3)
 		for k := 1; k <= nb; k++ {
 			p := r.Intn(k)
 			if chainy && r.Chance(3, 4) {
 				p = k - 1
 			}
+			// at most two children per block: with three or more siblings BlockTree.Prune
+			// (property C15/C17, lib/blocktree) skips siblings, which changes which abandoned
+			// headers stay readable; keep this harness independent of that defect
+			for tries := 0; nkids[p] >= 2 && tries < 50; tries++ {
+				p = r.Intn(k)
+			}
+			if nkids[p] >= 2 {
+				p = k - 1
+			}
+			nkids[p]++
 			parent[k] = p
 			num[k] = num[p] + 1
-		}
-		var chs []string
-		nextAuth := uint64(1)
-		dense := r.Chance(1, 3)
-		for k := 1; k <= nb; k++ {
-			ps, pf := 30, 10
-			if dense {
-				ps, pf = 55, 25
-			}
-			if r.Intn(100) < ps {
-				chs = append(chs, fmt.Sprintf("s%s,%s,%s", vu.X(uint64(k)), vu.X(uint64(r.Intn(4))), vu.X(nextAuth)))
-				nextAuth++
-			}
-			if r.Intn(100) < pf {
-				bf := uint64(r.Intn(num[k] + 1))
-				chs = append(chs, fmt.Sprintf("f%s,%s,%s,%s", vu.X(uint64(k)), vu.X(uint64(r.Intn(4))), vu.X(nextAuth), vu.X(bf)))
-				nextAuth++
-			}
 		}
 		isAnc := func(a, d int) bool {
 			for {
@@ -123,6 +119,7 @@ func c23Gen(r *vu.RNG, n int, emit func(string)) {
 		imported := make([]bool, nb+1)
 		imported[0] = true
 		fin := 0
+		finAtImport := make([]int, nb+1)
 		stepwise := r.Chance(1, 2)
 		pfin := 15 + r.Intn(35)
 		var evs []string
@@ -152,7 +149,32 @@ func c23Gen(r *vu.RNG, n int, emit func(string)) {
 					k = imps[0]
 				}
 				imported[k] = true
+				finAtImport[k] = num[fin]
 				evs = append(evs, "i"+vu.X(uint64(k)))
+			}
+		}
+		// announcements: the best-finalized number of a forced change is mostly a plausible one
+		// (between the finalised height at the time of the import and the block's own number)
+		var chs []string
+		nextAuth := uint64(1)
+		dense := r.Chance(1, 3)
+		for k := 1; k <= nb; k++ {
+			ps, pf := 30, 10
+			if dense {
+				ps, pf = 55, 25
+			}
+			if r.Intn(100) < ps {
+				chs = append(chs, fmt.Sprintf("s%s,%s,%s", vu.X(uint64(k)), vu.X(uint64(r.Intn(4))), vu.X(nextAuth)))
+				nextAuth++
+			}
+			if r.Intn(100) < pf {
+				lo := finAtImport[k]
+				if lo > num[k] || r.Chance(1, 6) {
+					lo = 0
+				}
+				bf := uint64(lo + r.Intn(num[k]-lo+1))
+				chs = append(chs, fmt.Sprintf("f%s,%s,%s,%s", vu.X(uint64(k)), vu.X(uint64(r.Intn(4))), vu.X(nextAuth), vu.X(bf)))
+				nextAuth++
 			}
 		}
 		j := func(l []string) string {
@@ -246,7 +268,7 @@ func c23Run(in string) string {
 	snapshot := func() {
 		cur, err := gs.GetCurrentSetID()
 		if err != nil {
-			out = append(out, "s=?", "a=?", "n=?", "x=?")
+			out = append(out, "s=?", "a=?", "n=?", "x=?", "F=?", "R=?")
 			return
 		}
 		out = append(out, "s="+vu.X(cur))
@@ -289,6 +311,34 @@ func c23Run(in string) string {
 			}
 		}
 		out = append(out, "x="+strings.Join(xs, ","))
+		index := map[common.Hash]int{}
+		for k, h := range headers {
+			if h != nil {
+				index[h.Hash()] = k
+			}
+		}
+		var fs []string
+		for _, c := range *gs.forcedChanges {
+			fs = append(fs, vu.X(uint64(index[c.announcingHeader.Hash()])))
+		}
+		if len(fs) == 0 {
+			fs = []string{"-"}
+		}
+		out = append(out, "F="+strings.Join(fs, "."))
+		var dump func(ns []*pendingChangeNode) string
+		dump = func(ns []*pendingChangeNode) string {
+			var sb strings.Builder
+			for _, n := range ns {
+				sb.WriteString(vu.X(uint64(index[n.change.announcingHeader.Hash()])))
+				sb.WriteString("(" + dump(n.nodes) + ")")
+			}
+			return sb.String()
+		}
+		rs := dump(*gs.scheduledChangeRoots)
+		if rs == "" {
+			rs = "-"
+		}
+		out = append(out, "R="+rs)
 	}
 	for _, ev := range c23List(f[3]) {
 		k := int(vu.UnX(ev[1:]))
